@@ -289,13 +289,13 @@ func (res *Response) Less(idx1, idx2 int) bool {
 			}
 
 			return valueA > valueB
-		case JSONCol, StringCol:
+		case JSONCol, StringCol, StringLargeCol, StringListCol, Int64ListCol, ServiceMemberListCol, InterfaceListCol:
 			index := field.Index
 			if field.Group {
 				index = 0
 			}
-			str1 := interface2stringNoDedup(res.result[idx1][index])
-			str2 := interface2stringNoDedup(res.result[idx2][index])
+			str1 := sortValue2string(res.result[idx1][index], sortType)
+			str2 := sortValue2string(res.result[idx2][index], sortType)
 			if str1 == str2 {
 				continue
 			}
@@ -304,18 +304,56 @@ func (res *Response) Less(idx1, idx2 int) bool {
 			}
 
 			return str1 > str2
-		case StringListCol:
-			// not implemented
-			return field.Direction == Asc
-		case Int64ListCol:
-			// not implemented
-			return field.Direction == Asc
+		case CustomVarCol:
+			str1 := interface2hashmap(res.result[idx1][field.Index])[field.Args]
+			str2 := interface2hashmap(res.result[idx2][field.Index])[field.Args]
+			if str1 == str2 {
+				continue
+			}
+			if field.Direction == Asc {
+				// make empty vars appear last
+				if str1 == "" {
+					return false
+				}
+				if str2 == "" {
+					return true
+				}
+
+				return str1 < str2
+			}
+
+			// make empty vars appear first
+			if str1 == "" {
+				return true
+			}
+			if str2 == "" {
+				return false
+			}
+
+			return str1 > str2
 		default:
 			panic(fmt.Sprintf("sorting not implemented for type %s", sortType))
 		}
 	}
 
 	return true
+}
+
+// sortValue2string returns the text a result value is sorted by, which is the text
+// DataRow.GetString returns for a column of this type.
+func sortValue2string(value interface{}, dataType DataType) string {
+	switch dataType {
+	case StringListCol:
+		return strings.Join(interface2stringlist(value), ListSepChar1)
+	case Int64ListCol:
+		return strings.Join(strings.Fields(fmt.Sprint(interface2int64list(value))), ListSepChar1)
+	case ServiceMemberListCol:
+		return fmt.Sprintf("%v", interface2servicememberlist(value))
+	case InterfaceListCol:
+		return fmt.Sprintf("%v", interface2interfacelist(value))
+	default:
+		return interface2stringNoDedup(value)
+	}
 }
 
 // Swap replaces two data rows while sorting.
